@@ -43,6 +43,8 @@ SHAPES = {
     'A': [('a', 'x'), ('a', 'f'), ('b', 'c', 's')],
     'B': [('x',), ('f',), ('s',)],
     'C': [('a', 'b', 'x'), ('a', 'b', 'f'), ('a', 's'), ('d', 'x')],
+    # a nested variable and a nested store that are themselves called 'time'
+    'D': [('clock', 'time'), ('env', 'time', 'x'), ('env', 'f')],
 }
 
 
@@ -50,6 +52,8 @@ def jobs(tier):
     out = []
     for shape in SHAPES:
         for nt in ((2, 3) if tier == 'quick' else (2, 3, 4)):
+            if shape == 'D' and nt == 3 and tier == 'quick':
+                continue
             out.append(dict(name='shape%s-T%d' % (shape, nt), shape=shape,
                             nt=nt, budget_s=100 if tier == 'quick' else 900,
                             crosscheck=20 if tier == 'thorough' else 0))
